@@ -739,3 +739,56 @@ def r13_exact_quotient(ctx):
 
 
 RULES += [r13_exact_quotient]
+
+
+def r14_expand_unrelated(ctx):
+    ctx.rule("C03.r14", "expand(var, new_var) makes a copy that is NOT related to var: no implementation assigns var to new_var or binds "
+             "new_var to the representation (term) of var - relational and term domains would record new_var == var, and loads from a "
+             "smashed array (which go through expand) would equate the loaded value with the summary of all cells", floor=15)
+    dom = dm.domain_classes(ctx.db)
+    n = 0
+    seen = set()
+    for f in sorted(set(c["file"] for c in dom.values())):
+        for fn in ctx.db.fns(f, name="expand"):
+            if fn.get("cls") not in dom or len(fn.get("params", [])) != 2:
+                continue
+            key = fn.get("cpk")
+            if key in seen:
+                continue
+            seen.add(key)
+            n += 1
+            body = fn["body"]
+            d = local_decls(body)
+            xid, yid = fn["params"][0]["id"], fn["params"][1]["id"]
+
+            def derives(e, pid, depth=0, fresh_ok=True):
+                """does e derive from parameter pid (through locals) without passing through a fresh_var()?"""
+                for z in walk(e):
+                    if z.get("k") == "ref" and z.get("id") == pid:
+                        return True
+                    if z.get("k") == "ref" and z.get("rk") == "local" and depth < 4:
+                        dd = d.get(z.get("id")) or {}
+                        if "i" in dd and not any(is_call(q, name="fresh_var") for q in walk(dd["i"])) and derives(dd["i"], pid, depth + 1):
+                            return True
+                return False
+            bad = None
+            for c in walk(body):
+                if not (c.get("k") == "call" and callee(c) and callee(c)["name"] in ("assign", "assign_bool_var", "rebind_var", "apply", "weak_assign")):
+                    continue
+                a = c.get("a", [])
+                tgt = [i for i, z in enumerate(a) if derives(z, yid)]
+                srcs = [i for i, z in enumerate(a) if derives(z, xid) and i not in tgt]
+                if tgt and srcs:
+                    bad = c
+                    break
+            if bad is not None:
+                ctx.bad("%s::expand(var, new_var) relates the copy to the original with `%s`: expand must produce an UNRELATED copy "
+                        "(x in [0,5]; expand(x, y); assume(y <= 2) must leave x in [0,5])" % ((key or "").split("::")[-1], src(bad)[:50]),
+                        fn, bad, sig="expand-relates-copy:%s" % (key or "").split("::")[-1])
+            else:
+                ctx.ok("%s::expand does not relate new_var to var" % (key or "").split("::")[-1], fn, body)
+    if n == 0:
+        ctx.fail("rule C03.r14: no expand implementation found")
+
+
+RULES += [r14_expand_unrelated]
